@@ -70,7 +70,7 @@ pub fn value_json(v: &Value) -> J {
             use numbat::value::FunctionReference as F;
             match r {
                 F::Foreign(n) => json!({"t": "fn", "kind": "foreign", "name": n.as_str()}),
-                F::Normal(n) => json!({"t": "fn", "kind": "normal", "name": n.as_str()}),
+                F::Normal(n, ..) => json!({"t": "fn", "kind": "normal", "name": n.as_str()}),
                 F::TzConversion(n) => json!({"t": "fn", "kind": "tz", "name": n.as_str()}),
             }
         }
